@@ -1,6 +1,6 @@
 """Generic runner for the scheduler-level properties (layer S)."""
 import copy, json, time
-from common import Driver, short_hash, known_match
+from common import TieBroken, Driver, short_hash, known_match
 from layer_e import quantum, NonLattice
 from layer_s import run_impl_s, run_model_s, first_divergence_s, FULL_S
 from elayer import init_world, clause_names
@@ -26,10 +26,37 @@ def strace_json(sc, obs):
             "ops": {"pid": pid, "parents": parents}, "prios": [p["prio"] for p in sc["pipes"]], "init": init_world(sc), "rounds": rounds}
 
 
+def fractional_cpus(obs):
+    """assignments whose CPU amount is not a whole number.  On pools with whole CPUs every shipped scheduler hands out whole CPUs (all free ones, a tenth of the
+    pool rounded down, twice an earlier amount, one): a fractional amount is a decision no sizing rule of any of them produces, and the Lean checkers (amounts
+    are naturals) cannot even read it"""
+    out = []
+    for k, o in enumerate(obs):
+        for a in (o.get("dec") or {}).get("asgs", []):
+            if isinstance(a[1], float) and not float(a[1]).is_integer():
+                out.append((k, a))
+    return out
+
+
+def whole(x):
+    """canonical numbers: 4.0 CPUs are 4 CPUs"""
+    if isinstance(x, float) and x.is_integer():
+        return int(x)
+    if isinstance(x, list):
+        return [whole(y) for y in x]
+    if isinstance(x, dict):
+        return {k: whole(v) for k, v in x.items()}
+    return x
+
+
 def lean_scheck(drv, prop, sc, obs):
+    obs = whole(obs)
+    fr = fractional_cpus(obs)
+    if fr:
+        return [f"whole-cpus@round {fr[0][0]}: a container of {fr[0][1][1]} CPUs on pool {fr[0][1][0]}"]
     r = drv.send(f"scheck {prop} " + json.dumps(strace_json(sc, obs), separators=(",", ":")))
     if not r.get("ok"):
-        raise RuntimeError(f"driver could not evaluate check_{prop}: {r}")
+        raise (TieBroken if r.get("err") == "parse" else RuntimeError)(f"driver could not evaluate check_{prop}: {r}")
     return r["fails"]
 
 
@@ -67,6 +94,9 @@ def run_scenarios_s(ctx, prop, scenarios, proj=FULL_S, max_violations=3, classif
                 ctx.sit("discard_non_lattice")
                 continue
             mobs = run_model_s(sc, im.order, drv)
+            hyp = getattr(drv, "last_hyp", None) or {}
+            bad_hyp = [k for k in ("wfp", "segs", "pid", "topo", "future") if hyp.get(k) is not True]
+            ctx.sit("theorem_hypotheses_met" if not bad_hyp else "theorem_hypotheses_not_met_" + "_".join(bad_hyp))
             nasg = sum(len(o.get("dec", {}).get("asgs", [])) for o in iobs)
             nsus = sum(len(o.get("dec", {}).get("sus", [])) for o in iobs)
             nfail = sum(1 for o in iobs for r in o.get("res", []) if not r[1])
